@@ -44,6 +44,14 @@ var hasEnterClass = false
 func NewJavaFullListener(nodes map[string]core_domain.CodeDataStruct, file string) *JavaFullListener {
 	identMap = nodes
 	imports = nil
+	// per-file tables: a name declared in one file must not type a receiver in the next
+	mapFields = make(map[string]string)
+	localVars = make(map[string]string)
+	formalParameters = make(map[string]string)
+	creatorMethodMap = make(map[string]core_domain.CodeFunction)
+	currentType = ""
+	currentCreatorNode = *core_domain.NewDataStruct()
+	hasEnterClass = false
 	fileName = file
 	currentPkg = ""
 	classNodes = nil
